@@ -337,6 +337,13 @@ fn run_board(prop: Prop, tier: Tier) -> i32 {
         let n2 = for_family(&Flipped(&sf), &|p| visit(&ctx, p));
         fams.push(json!({"family": sf.name(), "index_space": sf.len(), "legal_members": n, "flipped_members": n2, "secs": t0.elapsed().as_secs_f64()}));
         let t0 = Instant::now();
+        for (fam, stride) in [(EpPin { edge_only: false }, if tier == Tier::Quick { 4_001u64 } else { 23 }), (EpPin { edge_only: true }, if tier == Tier::Quick { 211 } else { 3 })] {
+            let sf = Strided(&fam, stride);
+            let n = for_family(&sf, &|p| visit(&ctx, p));
+            let n2 = for_family(&Flipped(&sf), &|p| visit(&ctx, p));
+            fams.push(json!({"family": sf.name(), "index_space": sf.len(), "legal_members": n, "flipped_members": n2, "secs": t0.elapsed().as_secs_f64()}));
+        }
+        let t0 = Instant::now();
         let fam = PushChk;
         let sf = Strided(&fam, if tier == Tier::Quick { 401 } else { 11 });
         // the positions AFTER the double push: in check, e.p. available
@@ -446,7 +453,7 @@ fn run_board(prop: Prop, tier: Tier) -> i32 {
         }
     }
     if prop == Prop::C05 {
-        for k in ["states_whose_only_legal_moves_are_double_pawn_steps", "states_whose_only_legal_moves_are_en_passant_captures", "states_whose_only_legal_moves_are_promotions"] {
+        for k in ["states_whose_only_legal_moves_are_double_pawn_steps", "states_whose_only_legal_moves_are_en_passant_captures", "states_whose_only_legal_moves_are_promotions", "stalemates_with_a_pseudo_legal_en_passant_capture"] {
             if ctx.counters.get(k) == 0 {
                 rep.machinery(format!("vacuous: counter {} is zero", k));
             }
